@@ -58,3 +58,17 @@ Theorem C08_home_and_calls_reach_original : forall ops,
   exists x, In (c, x) (o_alloc (ow s)) /\ snd (step s RecvHO) = [EvHome k (Some x)].
 Proof. exact home_original. Qed.
 Print Assumptions C08_home_and_calls_reach_original.
+
+(* several connections to the same Tub (reconnection, loopback): a proxy is put on the wire as a bare clid only on the
+   very connection it was received on -- where C08_home_and_calls_reach_original applies; on any other connection,
+   even one to the same Tub, it travels as a gift carrying the object's FURL (resolution of gifts through the owning
+   Tub: checked on real Tubs by the harness, not modelled) *)
+Theorem C08_bare_clid_stays_on_its_connection : forall pc oc c u c',
+  slice_proxy pc oc c u = WYourRef c' -> conn_id pc = conn_id oc /\ c' = c.
+Proof. exact bare_clid_stays_on_its_connection. Qed.
+Print Assumptions C08_bare_clid_stays_on_its_connection.
+
+Theorem C08_other_connection_is_a_gift : forall pc oc c u,
+  conn_id pc <> conn_id oc -> slice_proxy pc oc c u = WTheirRef u.
+Proof. exact other_connection_is_a_gift. Qed.
+Print Assumptions C08_other_connection_is_a_gift.
